@@ -42,6 +42,17 @@ BagOf(s) == [x \in Range(s) |-> Cardinality({i \in 1..Len(s) : s[i] = x})]
 \* number of occurrences
 CountIn(s, x) == Cardinality({i \in 1..Len(s) : s[i] = x})
 
+\* two states are the same abstract state: list-valued fields are bags (the order of entries is not part of the abstraction)
+BagFields == {"frozen", "wait", "checksUsed", "haltVotes", "commVotes", "updVotes", "deleted", "blocked"}
+CandEq(c, d) == /\ SameExcept(c, d, {"stakes", "upd"})
+                /\ BagOf(c.stakes) = BagOf(d.stakes) /\ BagOf(c.upd) = BagOf(d.upd)
+SameField(s, t, f) ==
+   IF f \in BagFields THEN BagOf(s[f]) = BagOf(t[f])
+   ELSE IF f = "cands" THEN DOMAIN s.cands = DOMAIN t.cands /\ \A p \in DOMAIN s.cands : CandEq(s.cands[p], t.cands[p])
+   ELSE s[f] = t[f]
+StateDiff(s, t) == {f \in DOMAIN s \cup DOMAIN t : f \notin DOMAIN s \/ f \notin DOMAIN t \/ ~SameField(s, t, f)}
+SameState(s, t) == StateDiff(s, t) = {}
+
 \* ---------------------------------------------------------------- accounts
 Bal(s, a, c) == IF a \in DOMAIN s.bal /\ c \in DOMAIN s.bal[a] THEN s.bal[a][c] ELSE Zero
 NonceOf(s, a) == Get(s.nonce, a, 0)
